@@ -151,13 +151,58 @@ def cases(tier, seed):
         for size in (None, 2, 5, 6):
             for lay in ("C", "readonly"):
                 out.append({"kind": "immut", "cls": "immut:structured", "layout": lay, "size": size, "structure": structure, "seed": seed})
+    for size in (None, 1, 2, 5):
+        out.append({"kind": "verbose", "cls": "verbose", "size": size, "seed": seed})
     out.append({"kind": "seedfun", "cls": "seedfun", "seed": seed})
     out.append({"kind": "styles", "cls": "styles", "seed": seed})
     return out
 
 
 def run_case(spec, ctx, R):
-    {"history": _history, "immut": _immut, "seedfun": _seedfun, "styles": _styles}[spec["kind"]](spec, ctx, R)
+    {"history": _history, "immut": _immut, "seedfun": _seedfun, "styles": _styles, "verbose": _verbose}[spec["kind"]](spec, ctx, R)
+
+
+def _verbose(spec, ctx, R):
+    """verbose=True only prints: every routine with such a flag returns what it returns with verbose=False (same seed, same arguments)."""
+    S, U, D, SC = R.solver, R.utils, R.decomp, R.schur
+    I = battery.make_inputs(size=spec.get("size"))
+    A43, A33, H3, b3 = I["A43"], I["A33"], I["H3"], I["b3"]
+    calls = {
+        "NewtonSchulz": lambda v: S.NewtonSchulzPseudoinverse(max_iter=6, tol=1e-9, verbose=v).compute(A43.copy()),
+        "NewtonSchulz[cov_only]": lambda v: S.NewtonSchulzPseudoinverse(max_iter=6, tol=1e-9, compute_residuals=False, verbose=v).compute(A43.copy()),
+        "HigherOrderNS": lambda v: S.HigherOrderNewtonSchulzPseudoinverse(max_iter=4, verbose=v).compute(A43.copy())[:2],
+        "QGMRES": lambda v: S.QGMRESSolver(tol=1e-10, verbose=v).solve(A33.copy() + 2.0 * refq.eye(A33.shape[0]), b3.copy()),
+        "QGMRES[left_lu]": lambda v: S.QGMRESSolver(tol=1e-10, verbose=v, preconditioner="left_lu").solve(A33.copy() + 2.0 * refq.eye(A33.shape[0]), b3.copy()),
+        "RSP": lambda v: S.RandomizedSketchProjectPseudoinverse(block_size=2, max_iter=6, tol=1e-9, verbose=v).compute(A43.copy()),
+        "RSP[spd]": lambda v: S.RandomizedSketchProjectPseudoinverse(block_size=2, max_iter=6, tol=1e-9, verbose=v, column_solver="spd").compute(A43.copy()),
+        "RSP[row]": lambda v: S.RandomizedSketchProjectPseudoinverse(block_size=2, max_iter=6, tol=1e-9, verbose=v).compute(refq.herm(A43)),
+        "Hybrid": lambda v: S.HybridRSPNewtonSchulz(r=1, p=2, T=2, max_iter=4, tol=1e-9, verbose=v).compute(A43.copy()),
+        "CGNE": lambda v: S.CGNEQSolver(max_iter=5, tol=1e-12, verbose=v).compute(A43.copy()),
+        "CGNE[rank=2]": lambda v: S.CGNEQSolver(max_iter=4, tol=1e-12, preconditioner_rank=2, verbose=v).compute(A43.copy()),
+        "power_iteration": lambda v: U.power_iteration(H3.copy(), max_iterations=30, return_eigenvalue=True, verbose=v),
+        "quaternion_eigendecomposition": lambda v: D.quaternion_eigendecomposition(H3.copy(), verbose=v),
+        "quaternion_eigenvalues": lambda v: D.quaternion_eigenvalues(H3.copy(), verbose=v),
+        "quaternion_eigenvectors": lambda v: D.quaternion_eigenvectors(H3.copy(), verbose=v),
+    }
+    for fn, kw in (("quaternion_schur", {}), ("quaternion_schur_pure", {}), ("quaternion_schur_pure_implicit", {}),
+                   ("quaternion_schur_unified", {"variant": "aed"}), ("quaternion_schur_unified", {"variant": "rayleigh"}),
+                   ("quaternion_schur_experimental", {})):
+        calls[fn + str(sorted(kw.items()))] = (lambda v, fn=fn, kw=kw: getattr(SC, fn)(A33.copy(), max_iter=6, verbose=v, **kw))
+    for name, f in calls.items():
+        outs = []
+        for v in (False, True, np.bool_(True), 1):
+            np.random.seed(4321 + spec["seed"])
+            try:
+                with repo.quiet():
+                    outs.append(("ok", battery.result_digest(_strip("HigherOrderNS" if name == "HigherOrderNS" else "", f(v)))))
+            except Exception as e:
+                outs.append(("raise", type(e).__name__))
+        if outs[0][0] == "raise":
+            continue                    # not defined for this size variant
+        ctx.distinct("verbose", name, spec.get("size"))
+        ctx.hit("callform:verbose_true")
+        ctx.check("verbose:same_result", outs[1] == outs[0] and outs[2] == outs[0] and outs[3] == outs[0], site=name,
+                  detail={"verbose_false": outs[0], "verbose_true": outs[1], "numpy_bool": outs[2], "int_1": outs[3], "size": spec.get("size")})
 
 
 def _call(obj, method, prob, S):
